@@ -9,6 +9,7 @@ caption's TEXT/BREAK structure modulo per-line trim and whitespace-run collapse.
 """
 import itertools
 
+from mc import shared
 from mc.acc import Acc
 from mc.ref import docs, parsers
 
@@ -178,8 +179,8 @@ def make_doc(fmt, captions, brk, wrap_first=False):
 def read(fmt, doc):
     import pycaption
 
-    r = {"srt": pycaption.SRTReader, "webvtt": pycaption.WebVTTReader, "microdvd": pycaption.MicroDVDReader, "dfxp": pycaption.DFXPReader, "sami": pycaption.SAMIReader}[fmt]()
-    cs = r.read(doc)
+    r = {"srt": pycaption.SRTReader, "webvtt": pycaption.WebVTTReader, "microdvd": pycaption.MicroDVDReader, "dfxp": pycaption.DFXPReader, "sami": pycaption.SAMIReader}[fmt]
+    cs = shared.obj(r).read(doc)
     lang = cs.get_languages()[0]
     out = []
     for c in cs.get_captions(lang):
@@ -286,8 +287,22 @@ def line_seqs(n_pieces, max_len):
         yield from itertools.product(range(n_pieces), repeat=ln)
 
 
+def reuse_items():
+    items = []
+    for i in range(40):
+        for fmt in PIECES:
+            n = len(PIECES[fmt])
+            caps = [[[(i * 3) % n, (i * 7 + 1) % n]]] if i % 2 else [[[(i * 5) % n], [(i + 2) % n]], [[(i * 11) % n]]]
+            items.append((fmt, caps, i % len(BREAKS[fmt]), (i // 2) % len(JOINS[fmt]), bool(i % 5 == 0) and fmt in ("dfxp", "sami")))
+    return items
+
+
+def reuse_eval(item):
+    return evaluate_raw(*item)
+
+
 def shards(tier, seed):
-    sh = []
+    sh = [{"k": "reuse", "fmt": "srt"}]
     b = bounds(tier)
     for fmt in PIECES:
         n = len(PIECES[fmt])
@@ -300,6 +315,9 @@ def shards(tier, seed):
 
 def run_shard(d):
     acc = Acc()
+    if d["k"] == "reuse":
+        shared.run(acc, reuse_items(), reuse_eval, sample=lambda it: {"reuse_run_step": list(it)})
+        return acc.result()
     fmt = d["fmt"]
     P = PIECES[fmt]
 
@@ -338,5 +356,7 @@ def run_shard(d):
 
 
 def replay(case):
+    if case.get("reuse"):
+        return shared.replay(reuse_items(), reuse_eval, case["index"])
     v, _ = evaluate(case["fmt"], case["caps"], case["brk"], case["join"], case["wrap"])
     return [{"sig": s, "detail": d} for s, d in v]
